@@ -210,8 +210,8 @@ def cell_specs(spec, table, ci):
     """raw cell specs of column ci in `_get_cells` order (header?, body cells, footer?)"""
     if ci >= len(spec["cols"]) or spec.get("has_extra"):
         # columns created by add_row (or shifted by them): anonymous cells, never shared between oracles
-        n = len(table.columns[ci]._cells) + int(table.show_header) + int(table.show_footer)
-        return [("anon", ci, ri) for ri in range(n)]
+        nb = len(table.columns[ci]._cells)
+        return ([("anon-h", ci)] if table.show_header else []) + [("anon-b", ci, k) for k in range(nb)] + ([("anon-f", ci)] if table.show_footer else [])
     c = spec["cols"][ci]
     out = []
     if table.show_header:
@@ -258,7 +258,7 @@ def encode_variant(flags, pool, console, table, avail, spec):
                      str(int(table.leading)), str(pt), str(pr), str(pb), str(pl), b(table.pad_edge), b(table.collapse_padding),
                      b(table._expand), enc_opt(table.width), enc_opt(table.min_width), enc_opt(ti), enc_opt(ca)])
     rows = enc_ints([int(bool(r.end_section)) for r in table.rows])
-    text = ";".join([f"{flags[0]} {flags[1]}", str(avail), opts, rows, ",".join(cols_enc)])
+    text = ";".join([" ".join(str(int(f)) for f in flags), str(avail), opts, rows, ",".join(cols_enc)])
     assert "\t" not in text and "@" not in text
     return text, padded, ncols
 
@@ -352,6 +352,10 @@ def evaluate(ctx, console, table, avail, widths, lines, padded, spec, text_cells
         finding = None
         if not ok and table.min_width is not None and table.min_width - extra < max_width and sum(widths) < max_width:
             finding = "table-expand-min-width"
+        elif (not ok and flexible and sum(widths) < max_width
+              and any((not c.flexible) and table._measure_column(console, c, max_width).maximum == 0 for c in table.columns)):
+            # a ratio column next to a column that measures 0 (empty cells, no padding): reserved 0, given 1
+            finding = "table-expand-ratio-zero-width-column"
         ctx.check(ok, "table_expand_exact", spec,
                   f"expanding table is {table_width} cells wide, asked for {max_width + extra} (widths {widths}, natural {first})", finding=finding)
     # --- width_fits
